@@ -10,19 +10,47 @@ from ..mirsym.runner import run_jobs
 from . import c02, c06, c07
 
 
+def sk_bytes(N, f, g, F):
+    w = 6 if N == 512 else 5
+    bits = ''
+    for vec, ww in ((f, w), (g, w), (F, 8)):
+        v = list(vec) + [0] * (N - len(vec))
+        bits += ''.join(format(x & ((1 << ww) - 1), '0%db' % ww) for x in v)
+    return bytes([0x50 + N.bit_length() - 1]) + int(bits, 2).to_bytes(len(bits) // 8, 'big')
+
+
+def confirm_sk_tail(rep, r, p):
+    """a panic obligation in the Z_q tail of SecretKey::from_bytes (hadamard_div / hadamard_mul on arbitrary canonical vectors): exhibit it
+    natively on well-formed secret keys whose f has zero NTT coefficients (all-zero body; f = 1 + 5y + 7y^2 - 6y^3 with y = X^(n/4))"""
+    for N in (512, 1024):
+        y = N // 4
+        fs = [0] * N; fs[0] = 1; fs[y] = 5; fs[2 * y] = 7; fs[3 * y] = -6
+        for f, g, F in (([0], [0], [0]), (fs, [1], [1]), ([0], [1, 2], [3])):
+            enc = sk_bytes(N, f, g, F)
+            dev, rel = replay.both(['parse', 'SecretKey', N, enc.hex()])
+            rep.replayed += 1
+            if dev.startswith('PANIC') or rel.startswith('PANIC'):
+                rep.violation('SecretKey::from_bytes:panic', 'SecretKey::<%d>::from_bytes panics on a well-formed %d-byte key whose f has a zero NTT coefficient: %s (obligation: %s in %s)'
+                              % (N, len(enc), dev if dev.startswith('PANIC') else rel, p['msg'], r['tag']), {'replay_request': ['parse', 'SecretKey', N, enc.hex()[:80] + '...'], 'dev': dev[:100], 'release': rel[:100]})
+                return True
+    rep.note_inconclusive('violable obligation in %s (%s) not reproduced natively through SecretKey::from_bytes' % (r['tag'], p['msg']))
+    return False
+
+
 def check(tier):
     rep = Report('C03', tier)
     rep.functions = ['encoding::decompress', 'falcon::{PublicKey,SecretKey,Signature}::<N>::from_bytes', 'SecretKey::deserialize_field_element', 'falcon::verify::<N> + closures', 'Felt::{new,balanced_value}']
     rep.bounds = ['decompress: as C07 (fully symbolic small buffers, structured long runs, production-size tails in the thorough tier)',
                   'from_bytes: every byte symbolic at the accepted length and at lengths 0, 1, 2, accepted +-1, the other variant\'s; N in {512, 1024}',
                   'verify: toy N in {1,2,4}, all c, h, s2 (|s2_i| < 12160) and decode failure; real decompress composed for small (N, L); sums of 2N squares below 2^63 is checked for N <= 4 and by the arithmetic fact 1024*(6144^2 + 12159^2) < 2^63']
-    rep.outside = ['SecretKey::from_bytes: the floating-point tail (fft, hadamard_div, from_b0 = FFT + ffLDL in f64) is outside M; it receives balanced values and vectors of length n',
+    rep.outside = ['SecretKey::from_bytes: the Z_q tail is covered by contract (Polynomial::hadamard_div / hadamard_mul total on all canonical vectors of length <= 3, real MIR; the NTT itself by C11); the floating-point tail (from_b0 = FFT + ffLDL in f64) is outside M',
                    'stack / heap exhaustion; panics inside dependencies beyond what the summaries model (index out of range, unwrap, try_into length)']
     rep.trusted = ['mirsym library summaries', 'z3']
     rep.assumptions = ['overflow checks ON (the dev/test profile): every arithmetic assert terminator in the MIR is an obligation']
     load_program(fresh=True)
     rnd = random.Random(seed() * 7919 + 17)
-    jobs = c07.dec_jobs(tier, rnd) + c06.parse_jobs(tier) + [j for j in c02.jobs_for(tier)]
+    had = [(c06.MOD, 'hadamard_scen', dict(n=n, which=w)) for n, w in ((1, 'hadamard_div'), (2, 'hadamard_div'), (3, 'hadamard_div'), (3, 'hadamard_mul'))]
+    jobs = c07.dec_jobs(tier, rnd) + c06.parse_jobs(tier) + [j for j in c02.jobs_for(tier)] + had
     results = run_jobs(jobs, workers=NCPU, order_seed=0)
     # arithmetic fact for the production sizes
     assert 1024 * (6144 ** 2 + 12159 ** 2) < 2 ** 63
@@ -45,6 +73,8 @@ def check(tier):
                 c06.confirm_parse_bad(rep, r, {'input': p['input'], 'kind': 'panic ' + p['msg']})
             elif job[1] == 'deser_field_scen':
                 c06.confirm_field_bad(rep, r, {'bits': p['bits']})
+            elif job[1] == 'hadamard_scen':
+                confirm_sk_tail(rep, r, p)
             else:
                 if not c02.differential(rep, r['variant'], c02.battery(r['variant']), 'verify:panic', 'panic obligation violable in verify: %s at %s' % (p['msg'], p['site']), need_panic=True):
                     rep.note_inconclusive('violable assertion in verify not reproduced natively: %s at %s' % (p['msg'], p['site']))
